@@ -297,6 +297,18 @@ func init() {
 				})
 				c.need("C15/service-save-guard", fn, "call SaveServiceGCSafePoint", func(i ssa.Instruction) bool { return i == s.Instr.(ssa.Instruction) },
 					[]Ev{gTTL, gMin}, all, "dominated by TTL > 0 ∧ request.SafePoint >= min.SafePoint (min from LoadMinServiceGCSafePoint)")
+				// what is reported as the minimum is the loaded minimum, not the request's own value
+				respMin := P.Field("github.com/pingcap/kvproto/pkg/pdpb", "UpdateServiceGCSafePointResponse", "MinSafePoint")
+				nResp := 0
+				for _, rs := range storesToField(fn, respMin) {
+					nResp++
+					okMin := derivesFrom(rs.Val, func(v ssa.Value) bool { return isLoadOf(v, fSafe) && derivesFrom(v, resultOfCall(F(loadMin)), 6) }, 3) &&
+						!derivesFrom(rs.Val, loadOfField(reqSafe), 3)
+					c.Check(okMin, "C15/service-response-min", fmt.Sprintf("MinSafePoint of the response #%d in %s", nResp, fnName(fn)), "the safe point of the entry LoadMinServiceGCSafePoint returned", P.instrPos(rs), "")
+				}
+				if nResp == 0 {
+					c.Undec("C15/service-response-min", "response of "+fnName(fn), "a MinSafePoint field", "", "")
+				}
 				// expiry arithmetic: ExpiredAt = now + TTL is kept only when the sum cannot overflow,
 				// otherwise it is clamped to MaxInt64 (a wrapped sum is a record that expired long ago)
 				isUnix := func(v ssa.Value) bool {
